@@ -162,16 +162,19 @@ def _apply_bcs(simu, mesh, unk, case, expected, unique=False):
             if nodes.size == 0:
                 continue
         vals_n = f(coord[nodes, 0], coord[nodes, 1], coord[nodes, 2]) + 0 * nodes
+        # every unknown of a condition gets its own value (factor 1, 1.5, 2 for components 0, 1, 2): the unknowns may be listed
+        # in any order, each must receive the value given at its position in the list
+        fac = lambda c: 1.0 + 0.5 * c  # noqa: E731
         for _ in range(1 if unique else cd["repeat"]):
             if cd["form"] == "const":
                 v = float(cd["coefs"][0])
-                values = [v for _ in cd["comps"]]
+                values = [v * fac(c) for c in cd["comps"]]
                 vals_used = np.full(nodes.size, v)
             elif cd["form"] == "array":
-                values = [vals_n.copy() for _ in cd["comps"]]
+                values = [vals_n * fac(c) for c in cd["comps"]]
                 vals_used = vals_n
             else:
-                values = [f for _ in cd["comps"]]
+                values = [(lambda x, y, z, c=c: f(x, y, z) * fac(c)) for c in cd["comps"]]
                 vals_used = vals_n
             simu.add_dirichlet(nodes, values, [unk[c] for c in cd["comps"]])
             for c in cd["comps"]:
@@ -179,7 +182,7 @@ def _apply_bcs(simu, mesh, unk, case, expected, unique=False):
                     d = int(n) * ncomp + c
                     if d in expected:
                         multi = True
-                    expected[d] = expected.get(d, 0.0) + float(v)
+                    expected[d] = expected.get(d, 0.0) + float(v) * fac(c)
     return multi, ordered
 
 
@@ -589,3 +592,60 @@ def check_lsq(case, rec):
 
 
 SUBS.append(Sub("bounded_lsq", check_lsq, gen=lsq_cases, quick=60, thorough=600, shards=4))
+
+
+# ------------------------------------------------------------------------------------------
+# orphan nodes in a problem whose number of dofs per node differs from the dimension of the simulation (the damage problem of a
+# phase-field simulation: 1 dof per node in a 2D simulation): same damage as on the mesh without the orphan nodes, 0 on them
+
+
+@st.composite
+def orphan_pf_cases(draw):
+    r = draw(gm.recipes2d(types=["TRI3", "QUAD4", "TRI6"], affine_ok=False, perm_ok=False, hmin=5, hmax=8, nmax=4))
+    return dict(recipe=r, orphans=draw(st.integers(1, 3)), perm=draw(st.one_of(st.none(), st.integers(0, 999))),
+                regu=draw(st.sampled_from(["AT1", "AT2"])), split=draw(st.sampled_from(["Bourdin", "Amor", "Miehe"])),
+                useed=draw(st.integers(0, 999)), amp=draw(st.integers(2, 8)) / 20.0, Gc=draw(st.integers(1, 10)) / 100.0)
+
+
+def check_orphan_pf(case, rec):
+    r0 = dict(case["recipe"], orphans=0, perm=None)
+    r1 = dict(case["recipe"], orphans=int(case["orphans"]), perm=case["perm"])
+    sig = dict(regu=case["regu"], split=case["split"], orphans=int(case["orphans"]), permuted=case["perm"] is not None)
+    out = []
+    for r in (r0, r1):
+        mesh = gm.build(r)
+        if mesh.Nn > 90:
+            raise Inconclusive("too large")
+        mat = Models.Elastic.Isotropic(2, E=10.0, v=0.3, planeStress=False)
+        pfm = Models.PhaseField(mat, case["split"], case["regu"], case["Gc"], 0.4, solver="History")
+        simu = Simulations.PhaseField(mesh, pfm)
+        X = np.asarray(mesh.coord, float)
+        G = np.random.default_rng(case["useed"]).uniform(-1, 1, (2, 2)) * case["amp"]
+        u = X[:, :2] @ G.T + 0.05 * case["amp"] * np.sin(3 * X[:, :2])
+        orph = np.asarray(mesh.orphanNodes, int)
+        u[orph] = 0.0
+        PT = simu.ProblemTypes
+        simu._Set_solutions(PT.elastic, u.ravel())
+        simu.Need_Update()
+        with warnings.catch_warnings(record=True) as wlist:
+            warnings.simplefilter("always")
+            simu._Solver_Solve_problemType(PT.damage)
+        sing = [w for w in wlist if "singular" in str(w.message).lower() or "MatrixRank" in type(w.message).__name__]
+        rec.require(not sing, "singular_warning", f"damage problem with {orph.size} orphan nodes: singular-matrix warning", **sig)
+        out.append((X, np.asarray(simu.damage, float).copy(), orph))
+    (X0, d0, _), (X1, d1, orph) = out
+    rec.label("types:" + gm.mesh_types(gm.build(r0)), f"orphans:{orph.size}", "permuted" if case["perm"] is not None else "appended")
+    rec.require(np.all(np.isfinite(d1)), "finite_solution", "non-finite damage with orphan nodes", **sig)
+    used1 = np.setdiff1d(np.arange(X1.shape[0]), orph)
+    # match the nodes of the two meshes by their coordinates (same gmsh mesh, renumbered)
+    key = lambda P: [tuple(np.round(p, 9)) for p in P]  # noqa: E731
+    pos = {k: i for i, k in enumerate(key(X0))}
+    idx0 = np.array([pos[k] for k in key(X1[used1])], int)
+    rec.close(d1[used1] - d0[idx0], max(float(np.abs(d0).max()), 1e-3), 1e-9, "damage_unchanged_by_orphans",
+              f"damage problem ({case['regu']}, {case['split']}): the damage of the mesh nodes changes when {orph.size} orphan node(s) "
+              "are added to the mesh", **sig)
+    rec.close(d1[orph], max(float(np.abs(d0).max()), 1e-3), 1e-12, "orphan_dofs_zero", "orphan nodes carry a non-zero damage", **sig)
+    rec.nontrivial(float(np.abs(d0).max()) > 1e-6)
+
+
+SUBS.append(Sub("orphans_phasefield", check_orphan_pf, gen=orphan_pf_cases, quick=60, thorough=500, shards=4))
